@@ -1,7 +1,7 @@
-//! C05: not implemented yet.
+//! C05: DML results match the relational reference model (engine in dmlengine.rs).
+use super::dmlengine::{run_prop, Focus};
 use crate::Args;
 
-pub fn run(_a: &Args) -> i32 {
-    println!("INCONCLUSIVE property=C05 reason=check not implemented yet");
-    2
+pub fn run(a: &Args) -> i32 {
+    run_prop(a, "C05", Focus::Dml, "generated histories (1-2 tables with/without integer PK, typed columns, optional secondary index; <= 40 statements: single/multi-row INSERT with optional column list and RETURNING, UPDATE/DELETE with point or generated predicates incl. keys already deleted, TRUNCATE, occasional transactions) executed on TurDB and on the relational model; after every statement rows_affected / RETURNING bag / full table bags / COUNT(*) are compared. distinct_nontrivial = distinct histories with more than 8 executed statements")
 }
